@@ -19,7 +19,8 @@ for c in "$@"; do
   RES="$RES $c:exit=$rc"
   grep -h "VIOLATION\|KNOWN-FINDING" $OUT/check_$c.log | head -3
 done
-git -C /repo checkout -- . 
+git -C /repo checkout -- .
+(cd /verif/tools && python3 -c 'import extract; extract.regenerate()')   # Generated/ back to the unchanged tree 
 echo "RESULT $NAME demo_patch=$A demo_repo=$B $RES"
 python3 - <<PY
 import json
